@@ -87,7 +87,7 @@ func lockGraphBody(r *explore.Run, rep *report.R, sc string, flags, n, row0 int,
 		nt = report.Hash("lock", flags, g.String())
 	}
 	rep.Eval(sc, report.Hash("lock", class, o.resolved, o.err != nil, len(o.pkgs)), nt)
-	if nt != "" && g.edges() >= 3 && wantSample(rep, fmt.Sprintf("lock/%d/cyc=%v/missing=%v", flags, cyc, len(missing) > 0)) {
+	if nt != "" && g.edges() >= 3 && cyc && len(missing) > 0 && wantSample(rep, "lock") {
 		rep.Sample(map[string]any{"part": "lock-graph", "lock": g.String(), "flags": flags, "map_order": perm, "cyclic": cyc, "missing": missing, "observed": o.String(), "choices": append([]int{}, r.Choices...), "scenario": sc})
 	}
 }
